@@ -32,7 +32,11 @@ ENV_INSERT = 'libcnb::env::Env::insert'
 ENV_GET = 'libcnb::env::Env::get'
 ENV_CONTAINS = 'libcnb::env::Env::contains_key'
 VEC_PUSH = 'std::vec::Vec::<T, A>::push'
-PUSH, MAYBE = '<push>', '<maybe>'
+PUSH, MAYBE, TAKE = '<push>', '<maybe>', '<take>'
+MEM_TAKE = 'std::mem::take'
+ENV_MAP_T = '&mut std::collections::HashMap<std::ffi::OsString, std::ffi::OsString'      # &mut Env.inner
+HM = 'std::collections::HashMap'
+HM_ENTRY = 'std::collections::hash_map::'
 
 
 # ---------------------------------------------------------------------------------------------------------------
@@ -106,6 +110,11 @@ class PSlicer(Slicer):
                                 refs[st[1][0]] = p[0]
                             elif len(p) == 2 and p[1] == '*' and p[0] in refs:
                                 refs[st[1][0]] = refs[p[0]]
+                            elif len(p) == 2 and p[1] == '*' and not (1 <= p[0] <= fn.argc) and \
+                                    (fn.locals[p[0]].get('ty') or '').startswith('&mut ') and fn.locals[p[0]].get('head') in self.CONTENT_TYPES:
+                                # `slot: &mut OsString` obtained from a call (map.entry(k).or_default()): the string
+                                # behind it is described by content like an owned one, `slot.push(x)` appends to it
+                                refs[st[1][0]] = p[0]
             rpo = fn._rpo()
             pos = {b: i for i, b in enumerate(rpo)}
             for c in sorted(fn.calls, key=lambda c: pos.get(c.bb, 10 ** 6)):
@@ -117,13 +126,28 @@ class PSlicer(Slicer):
                         kind = 'push'
                     elif not c.indirect and i == 0 and c.decl == self.EXTEND and len(c.args) == 2:
                         kind = 'extend'
+                    elif not c.indirect and i == 0 and c.name == MEM_TAKE and len(c.args) == 1 and \
+                            fn.locals[refs[pl[0]]].get('head') in self.CONTENT_TYPES:
+                        kind = 'take'       # the content moves out (the value of the call), an empty one stays behind
                     elif fn.locals[refs[pl[0]]].get('head') in self.CONTENT_TYPES:
                         kind = 'other'
                     else:
                         continue       # iterators, maps, the environment: not values this slicer describes by content
                     idx.setdefault(refs[pl[0]], []).append((kind, c))
             self._cache[key] = idx
+            self._cache[('refs', fn.path)] = refs
         return idx.get(local, [])
+
+    def _call_value(self, fn, call, seen, d):
+        if not call.indirect and call.name == MEM_TAKE and len(call.args) == 1:
+            # the string as it is when taken is resolved on demand, relative to the call (ArmCase.atoms): it cannot
+            # be part of its own later content (`let prev = take(slot); slot.push(x); slot.push(prev)`)
+            pl = op_place(call.args[0])
+            self._mutations(fn, 0)
+            refs = self._cache.get(('refs', fn.path), {})
+            if pl and len(pl) == 1 and pl[0] in refs and fn.locals[refs[pl[0]]].get('head') in self.CONTENT_TYPES:
+                return ('call', MEM_TAKE, (('slotref', fn.path, refs[pl[0]]),), (fn.path, call.bb))
+        return Slicer._call_value(self, fn, call, seen, d)
 
     def _with_updates2(self, fn, local, v, seen, d, def_bbs):
         muts = self._mutations(fn, local)
@@ -141,6 +165,9 @@ class PSlicer(Slicer):
             site = (fn.path, c.bb, tuple(def_bbs), kind)
             if kind == 'other':
                 parts.append(('call', MAYBE, (('call', '<mutated-by>', (('const', c.name or 'indirect call'),), None),), site))
+                continue
+            if kind == 'take':
+                parts.append(('call', TAKE if self._certain(fn, def_bbs, c.bb) else MAYBE, (('const', '<taken>'),), site))
                 continue
             pv = self.operand(fn, c.args[1], seen, d)
             parts.append(('call', PUSH if self._certain(fn, def_bbs, c.bb) else MAYBE, (pv,), site))
@@ -161,55 +188,63 @@ class ASlicer(PSlicer):
 # ---------------------------------------------------------------------------------------------------------------
 # per-edge conditions (guards.conditions only reports edges that dominate a block)
 # ---------------------------------------------------------------------------------------------------------------
+def edge_conds_at(fn, sb, sl):
+    """[(target block, Cond | None)] of the switch terminating block sb, values sliced with `sl`"""
+    blk = fn.blocks[sb]
+    t = blk['t']
+    if t['t'] != 'switch':
+        return None
+    by_target = {}
+    for v, tb in t['targets']:
+        by_target.setdefault(tb, []).append(v)
+    by_target.setdefault(t['else'], []).append('else')
+    listed = [v for v, _ in t['targets']]
+    di = _discr_info(fn, sb, t['o'])
+    val0 = sl.operand(fn, t['o'])
+    rows = []
+    for tb, labels in by_target.items():
+        cd = None
+        val = val0
+        if di:
+            place, vmap, enum = di
+            names = set()
+            for lab in labels:
+                if lab == 'else':
+                    names |= {n for v, n in vmap.items() if v not in listed}
+                else:
+                    names.add(vmap.get(lab, str(lab)))
+            cd = Cond(fn, sb, tb, 'variant', frozenset(names), val, sl.place(fn, place), enum)
+        elif t.get('oty') == 'bool':
+            outcome = None
+            if labels == ['else'] and listed == [0]:
+                outcome = True
+            elif labels == [0]:
+                outcome = False
+            elif labels == [1]:
+                outcome = True
+            elif labels == ['else'] and listed == [1]:
+                outcome = False
+            if outcome is not None:
+                while val[0] == 'un' and val[1] == 'Not':
+                    val = val[2]
+                    outcome = not outcome
+                if val[0] == 'select' and all(rv[0] == 'const' and isinstance(rv[1], bool) for _, rv in val[3]):
+                    names = frozenset(n for ns, rv in val[3] if rv[1] == outcome for n in ns)
+                    cd = Cond(fn, sb, tb, 'variant', names, val, val[1], val[2])
+                else:
+                    cd = Cond(fn, sb, tb, 'bool', outcome, val)
+                    cd._slicer = sl
+        rows.append((tb, cd))
+    return rows
+
+
 def edge_conds(fn, sl):
     """{switch block: [(target block, Cond | None)]}"""
     out = {}
-    for sb, blk in enumerate(fn.blocks):
-        t = blk['t']
-        if t['t'] != 'switch':
-            continue
-        by_target = {}
-        for v, tb in t['targets']:
-            by_target.setdefault(tb, []).append(v)
-        by_target.setdefault(t['else'], []).append('else')
-        listed = [v for v, _ in t['targets']]
-        di = _discr_info(fn, sb, t['o'])
-        val0 = sl.operand(fn, t['o'])
-        rows = []
-        for tb, labels in by_target.items():
-            cd = None
-            val = val0
-            if di:
-                place, vmap, enum = di
-                names = set()
-                for lab in labels:
-                    if lab == 'else':
-                        names |= {n for v, n in vmap.items() if v not in listed}
-                    else:
-                        names.add(vmap.get(lab, str(lab)))
-                cd = Cond(fn, sb, tb, 'variant', frozenset(names), val, sl.place(fn, place), enum)
-            elif t.get('oty') == 'bool':
-                outcome = None
-                if labels == ['else'] and listed == [0]:
-                    outcome = True
-                elif labels == [0]:
-                    outcome = False
-                elif labels == [1]:
-                    outcome = True
-                elif labels == ['else'] and listed == [1]:
-                    outcome = False
-                if outcome is not None:
-                    while val[0] == 'un' and val[1] == 'Not':
-                        val = val[2]
-                        outcome = not outcome
-                    if val[0] == 'select' and all(rv[0] == 'const' and isinstance(rv[1], bool) for _, rv in val[3]):
-                        names = frozenset(n for ns, rv in val[3] if rv[1] == outcome for n in ns)
-                        cd = Cond(fn, sb, tb, 'variant', names, val, val[1], val[2])
-                    else:
-                        cd = Cond(fn, sb, tb, 'bool', outcome, val)
-                        cd._slicer = sl
-            rows.append((tb, cd))
-        out[sb] = rows
+    for sb in range(len(fn.blocks)):
+        rows = edge_conds_at(fn, sb, sl)
+        if rows is not None:
+            out[sb] = rows
     return out
 
 
@@ -286,6 +321,35 @@ class Engine:
             self._has[key] = any(c.name == name for g in self.prog.reach([fn]).values() for c in g.calls)
         return self._has[key]
 
+    def has_env_write(self, fn):
+        """fn (or something it may enter) writes an environment: Env::insert, or the map inside an Env by `&mut`"""
+        key = (fn.path, '<env-write>')
+        if key not in self._has:
+            self._has[key] = fn.path == ENV_INSERT or bool(env_write_sites(self.prog, [fn]))
+        return self._has[key]
+
+
+def is_env_map_write(f, c):
+    """the call receives `&mut` the map inside an Env (libcnb::env::Env.inner)"""
+    for a in c.args:
+        pl = op_place(a)
+        if pl and len(pl) == 1 and (f.locals[pl[0]].get('ty') or '').startswith(ENV_MAP_T):
+            return True
+    return False
+
+
+def env_write_sites(prog, roots):
+    """{(fn path, block)} of the primitive writes of an environment reachable from `roots`: calls of Env::insert, and —
+    in the other functions that reach into an Env — calls that receive `&mut` its map"""
+    out = set()
+    for f in prog.reach(list(roots)).values():
+        if f.path == ENV_INSERT:
+            continue
+        for c in f.calls:
+            if c.name == ENV_INSERT or is_env_map_write(f, c):
+                out.add((f.path, c.bb))
+    return out
+
 
 class EngineView:
     """an Engine with additional parameter bindings: one call site of a helper that is called from several places"""
@@ -302,6 +366,9 @@ class EngineView:
     def has_call(self, fn, name):
         return self.base.has_call(fn, name)
 
+    def has_env_write(self, fn):
+        return self.base.has_env_write(fn)
+
     def to_root(self, v):
         v = self.base.to_root(v)
         return subst(v, self.extra, self.psl) if v is not None else v
@@ -317,6 +384,7 @@ class Spec:
         self.decider = decider
         self.conservative = 0
         self._busy = set()
+        self._deciding = set()
         self._estate = {}
         self._reach = {}
         self.asl = ASlicer(self.prog, self)
@@ -346,7 +414,22 @@ class Spec:
         if key in self._estate:
             return self._estate[key]
         rows = self.engine.edge_conds(fn).get(sb, [])
+        if key in self._deciding:       # asked again while being decided (a value sliced under the assumption): open
+            self.conservative += 1
+            return {tb: None for tb, _ in rows}
+        n0 = self.conservative
+        self._deciding.add(key)
+        try:
+            st = self._edge_state(fn, sb, rows)
+        finally:
+            self._deciding.discard(key)
+        if self.conservative == n0:     # else: decided while the feasible blocks were still being computed
+            self._estate[key] = st
+        return st
+
+    def _edge_state(self, fn, sb, rows):
         st = {}
+        special = None
         for tb, cd in rows:
             r = None
             if cd is not None:
@@ -354,6 +437,14 @@ class Spec:
                     r = False      # the `otherwise -> unreachable` edge of an exhaustive match
                 else:
                     r = self.decider.decide(self, fn, cd)
+                    if r is None and any(x[0] == 'phi' for x in walk(cd.value)):
+                        # the tested value merges definitions of several paths (`let v = match b {..}; if let Some(x)
+                        # = v`): under the assumption of this case only the definitions on feasible paths exist
+                        if special is None:
+                            special = dict(edge_conds_at(fn, sb, self.asl) or ())
+                        cd2 = special.get(tb)
+                        if cd2 is not None and cd2.kind == cd.kind and cd2.outcome == cd.outcome:
+                            r = self.decider.decide(self, fn, cd2)
             st[tb] = r
         if any(r is True for r in st.values()):
             st = {tb: (r is True) for tb, r in st.items()}
@@ -361,7 +452,6 @@ class Spec:
             open_ = [tb for tb, r in st.items() if r is not False]
             if len(open_) == 1 and len(st) > 1:
                 st[open_[0]] = True
-        self._estate[key] = st
         return st
 
     def fsuccs(self, fn, b):
@@ -474,6 +564,69 @@ class Spec:
 
 
 # ---------------------------------------------------------------------------------------------------------------
+# the per-delta application and its ownership variants
+# ---------------------------------------------------------------------------------------------------------------
+LED = 'libcnb::layer_env::LayerEnvDelta'
+ENV_T = 'libcnb::env::Env'
+_family_cache = {}
+
+
+def delta_family(prog):
+    """(core Fn, frozenset of paths): the per-delta application L.DAPPLY together with the private functions of the
+    same shape `(&LayerEnvDelta, Env | &Env) -> Env` that only hand (self, env) on to it / that it only hands
+    (self, env) on to — `apply(&self, env: &Env) = self.apply_owned(env.clone())`.  The *core* is the member that does
+    the work (the end of the delegation chain).  A member that does anything else than cloning and delegating is not a
+    thin wrapper and ends the chain."""
+    if _family_cache.get('prog') is prog:
+        return _family_cache['res']
+    psl = Slicer(prog)
+
+    def cand(f):
+        return (f.kind != 'Closure' and f.self_head == LED and f.argc == 2 and f.ret == ENV_T and
+                f.args[0] == '&' + LED and f.args[1] in ('&' + ENV_T, ENV_T))
+
+    def delegate(f):
+        rv = strip(psl.local(f, 0))
+        if not (rv[0] == 'call' and rv[1] in prog.fns and rv[1] != f.path and len(rv[2]) == 2 and cand(prog.fns[rv[1]])):
+            return None
+        for i, a in enumerate(rv[2]):
+            a = strip(a)
+            if not (a[0] == 'param' and a[1] == f.path and a[2] == i):
+                return None
+        for c in f.calls:
+            if c.indirect or not (c.name == rv[1] or (c.name or '').endswith(('Clone>::clone', 'Clone::clone'))):
+                return None
+        if sum(1 for c in f.calls if c.name == rv[1]) != 1 or any(b['t']['t'] == 'switch' for b in f.blocks):
+            return None
+        return prog.fns[rv[1]]
+
+    def core_of(f):
+        for _ in range(4):
+            g = delegate(f)
+            if g is None:
+                return f
+            f = g
+        return f
+
+    d = prog.fns.get(L.DAPPLY)
+    if d is None:
+        res = (None, frozenset())
+    else:
+        core = core_of(d)
+        fam = {core.path, d.path}
+        for f in prog.fns.values():
+            if f.crate == core.crate and cand(f) and f.path not in fam and core_of(f).path == core.path:
+                fam.add(f.path)
+        res = (core, frozenset(fam))
+    _family_cache['prog'], _family_cache['res'] = prog, res
+    return res
+
+
+def is_dapply(prog, name):
+    return name == L.DAPPLY or name in delta_family(prog)[1]
+
+
+# ---------------------------------------------------------------------------------------------------------------
 # R1: the deltas LayerEnv::apply folds, per Scope variant
 # ---------------------------------------------------------------------------------------------------------------
 ORDER_CHANGING = ('rev', 'reverse', 'sort', 'sort_by', 'sort_by_key', 'sort_unstable', 'sort_unstable_by', 'sort_unstable_by_key',
@@ -511,6 +664,10 @@ class ScopeEval:
             self.why = why
         return None
 
+    def is_step(self, name):
+        """the per-delta application, in any of its ownership variants (apply(&env) / apply_owned(env.clone()))"""
+        return name is not None and is_dapply(self.prog, name)
+
     def is_env(self, v):
         v = strip(v)
         return v[0] == 'param' and v[1] == self.f.path and v[2] == 2
@@ -525,7 +682,7 @@ class ScopeEval:
             return self.fail('too deep')
         if self.is_env(v):
             return []
-        if v[0] == 'call' and v[1] == L.DAPPLY and len(v[2]) == 2:
+        if v[0] == 'call' and self.is_step(v[1]) and len(v[2]) == 2:
             base = self.seq(v[2][1], d + 1)
             if base is None:
                 return None
@@ -535,7 +692,7 @@ class ScopeEval:
             it, init, cl = v[2]
             body = self.asl.apply_closure(strip(cl), (('sym', 'ACC'), ('sym', 'ELEM')))
             body = strip(body) if body is not None else None
-            if not (body is not None and body[0] == 'call' and body[1] == L.DAPPLY and len(body[2]) == 2
+            if not (body is not None and body[0] == 'call' and self.is_step(body[1]) and len(body[2]) == 2
                     and strip(body[2][0]) == ('sym', 'ELEM') and strip(body[2][1]) == ('sym', 'ACC')):
                 return self.fail('fold body is not delta.apply(&acc): ' + vstr(body)[:80])
             base = self.seq(init, d + 1)
@@ -547,7 +704,7 @@ class ScopeEval:
         if v[0] == 'phi':
             alts = [strip(a) for a in v[1]]
             cyc = lambda a: any(x == ('unknown', 'cycle') for x in walk(a))
-            steps = [a for a in alts if a[0] == 'call' and a[1] == L.DAPPLY and len(a[2]) == 2 and cyc(a[2][1])]
+            steps = [a for a in alts if a[0] == 'call' and self.is_step(a[1]) and len(a[2]) == 2 and cyc(a[2][1])]
             inits = [a for a in alts if a not in steps]
             if len(steps) == 1 and inits:
                 step = steps[0]
@@ -555,7 +712,7 @@ class ScopeEval:
                     # the accumulator itself, seen once more through the loop
                     inner = strip(step[2][1])
                     if not (inner[0] == 'phi' and all(strip(x) in inits or strip(x) == ('unknown', 'cycle') or
-                                                      (strip(x)[0] == 'call' and strip(x)[1] == L.DAPPLY and cyc(x)) for x in inner[1])):
+                                                      (strip(x)[0] == 'call' and self.is_step(strip(x)[1]) and cyc(x)) for x in inner[1])):
                         return self.fail('loop step does not apply the delta to the accumulator: ' + vstr(step)[:100])
                 coll, proj = L.loop_element(step[2][0])
                 if coll is None or proj != ():
@@ -595,10 +752,10 @@ class ScopeEval:
                 s0, s1 = self.seq(dflt, d + 1), self.seq(body, d + 1)
                 b = strip(body)
                 if s0 is not None and s1 is not None and len(s1) == len(s0) + 1 and s1[:-1] == s0 and s1[-1].endswith('!unguarded') and \
-                        b[0] == 'call' and b[1] == L.DAPPLY and b[2][0] == ('unwrap', o):
+                        b[0] == 'call' and self.is_step(b[1]) and b[2][0] == ('unwrap', o):
                     return s0 + [s1[-1][:-len('!unguarded')] + '?']
             return self.fail('result is not a fold of delta applications from the input env: ' + vstr(v)[:120])
-        if v[0] == 'call' and v[1] in self.prog.fns and self.prog.fns[v[1]].kind != 'Closure' and v[1] != L.DAPPLY:
+        if v[0] == 'call' and v[1] in self.prog.fns and self.prog.fns[v[1]].kind != 'Closure' and not self.is_step(v[1]):
             iv = self.asl.inline_call(v)
             if iv is not None:
                 return self.seq(iv, d + 1)
@@ -606,7 +763,7 @@ class ScopeEval:
 
     def optional_step(self, a):
         """a = delta.apply(acc) where delta is the payload of an Option and the call runs exactly when it is Some"""
-        if not (a[0] == 'call' and a[1] == L.DAPPLY and len(a) > 3 and a[3] and a[2][0][0] == 'unwrap'):
+        if not (a[0] == 'call' and self.is_step(a[1]) and len(a) > 3 and a[3] and a[2][0][0] == 'unwrap'):
             return False
         return self.guarded_by_some(a[3], a[2][0][1])
 
@@ -624,7 +781,7 @@ class ScopeEval:
         loops = [lp for lp in find_loops(g, self.engine.psl) if lp.header == nsite[1] and site[1] in lp.body]
         if len(loops) != 1:
             return self.fail('delta application is not inside the loop over the deltas')
-        inside = [c for c in g.calls if c.name == L.DAPPLY and c.bb in loops[0].body and self.spec.block_feasible(g, c.bb)]
+        inside = [c for c in g.calls if self.is_step(c.name) and c.bb in loops[0].body and self.spec.block_feasible(g, c.bb)]
         if len(inside) != 1:
             return self.fail('%d delta applications inside the loop' % len(inside))
         return True
@@ -648,7 +805,7 @@ class ScopeEval:
             for p in v[2]:
                 site = p[3]
                 kind = site[3] if len(site) > 3 else 'push'
-                if kind == 'other':
+                if kind in ('other', 'take'):
                     return self.fail('collection changed by ' + vstr(p[2][0])[:80])
                 if kind == 'extend':
                     if p[1] == MAYBE:
@@ -680,6 +837,20 @@ class ScopeEval:
             if (n in iters.COLLECTING or n in (iters.IT + 'peekable', iters.IT + 'fuse', iters.IT + 'by_ref', iters.IT + 'cloned', iters.IT + 'copied')
                     or (iters._is_source(n) and n.endswith(iters.SAME_ELEMS) and len(args) == 1)) and args:
                 return self.elems(args[0], d + 1)
+            if n == iters.IT + 'flatten' and len(args) == 1:
+                # [Some(a), map.get(k), None].into_iter().flatten(): the elements of the members, in member order
+                outer = strip(args[0])
+                while outer[0] == 'call' and len(outer[2]) == 1 and iters._is_source(outer[1]) and outer[1].endswith(iters.SAME_ELEMS):
+                    outer = strip(outer[2][0])
+                if outer[0] != 'array':
+                    return self.fail('flatten over something else than a literal array: ' + vstr(outer)[:100])
+                out = []
+                for member in outer[1]:
+                    more = self.elems(strip(member), d + 1)
+                    if more is None:
+                        return None
+                    out.extend(more)
+                return out
             if n == iters.IT + 'map' and len(args) == 2:
                 r = self.asl.apply_closure(strip(args[1]), (('sym', 'ELEM'),))
                 if r is not None and strip(r) == ('sym', 'ELEM'):
@@ -730,9 +901,9 @@ class ScopeEval:
 def order_changing_calls(prog, f):
     """calls that reorder a collection, in f and in the private functions it enters (other than the delta application)"""
     out = []
-    region = prog.reach([f], stop=lambda g: g.path == L.DAPPLY)
+    region = prog.reach([f], stop=lambda g: is_dapply(prog, g.path))
     for g in region.values():
-        if g.path == L.DAPPLY or g.crate != f.crate:
+        if is_dapply(prog, g.path) or g.crate != f.crate:
             continue
         for c in g.calls:
             if (c.name or '').split('::')[-1] in ORDER_CHANGING:
@@ -752,6 +923,53 @@ def scope_tables(prog):
         why[name] = ev.why
         shape[name] = ev.shape
     return f, table, why, shape
+
+
+# ---------------------------------------------------------------------------------------------------------------
+# R2: the ranks Ord for ModificationBehavior compares
+# ---------------------------------------------------------------------------------------------------------------
+def rank_table(prog, sl, cmpf):
+    """(rank helper Fn | None, {variant: rank}, cmp is rank(self).cmp(rank(other)), rendering) from the normal form of
+    Ord::cmp: private helpers inlined, `b.cmp(a).reverse()` turned around"""
+    raw = strip(sl.local(cmpf, 0))
+    rv = strip(sl.inline_deep(raw))
+    while rv[0] == 'call' and rv[1].endswith('Ordering::reverse') and len(rv[2]) == 1 and strip(rv[2][0])[0] == 'call' \
+            and strip(rv[2][0])[1].endswith('::cmp') and len(strip(rv[2][0])[2]) == 2:
+        inner = strip(rv[2][0])
+        rv = ('call', inner[1], (inner[2][1], inner[2][0]), inner[3] if len(inner) > 3 else None)
+    shown = vstr(rv)[:160]
+    if not (rv[0] == 'call' and rv[1].endswith('::cmp') and len(rv[2]) == 2):
+        return None, {}, False, shown
+    tables, subjects = [], []
+    for a in rv[2]:
+        a = strip(a)
+        while a[0] == 'cast':
+            a = strip(a[1])
+        if a[0] == 'discr':
+            # the variants compared by their discriminants (derived Ord, `*self as u8`): the rank is the discriminant
+            tables.append({v['name']: v['discr'] for v in prog.adt(MB)['variants'] if isinstance(v.get('discr'), int)})
+            subjects.append(strip(a[1]))
+            continue
+        if not (a[0] == 'select' and a[2] == MB):
+            return None, {}, False, shown
+        t = {}
+        for names, val in a[3]:
+            val = strip(val)
+            while val[0] == 'cast':
+                val = strip(val[1])
+            for n in names:
+                if val[0] == 'const' and isinstance(val[1], int) and not isinstance(val[1], bool):
+                    t[n] = val[1]
+        tables.append(t)
+        subjects.append(strip(a[1]))
+    good = tables[0] == tables[1] and all(s[0] == 'param' and s[1] == cmpf.path for s in subjects) and \
+        subjects[0][2] == 0 and subjects[1][2] == 1
+    ifn = None
+    for x in walk(raw):
+        if x[0] == 'call' and x[1] in prog.fns and prog.fns[x[1]].kind != 'Closure':
+            ifn = prog.fns[x[1]]
+            break
+    return ifn, tables[0], good, shown
 
 
 # ---------------------------------------------------------------------------------------------------------------
@@ -787,14 +1005,20 @@ class ArmCase:
     """assumption: the entry being applied has behaviour B, the variable is unset / empty / non-empty in the
     environment built so far, and the delta has / has not a Delimiter entry for the variable"""
 
-    def __init__(self, root, b, p, d):
+    def __init__(self, root, b, p, d, view=None):
         self.root, self.B, self.P, self.D = root, b, p, d
+        self.view = view        # EntryView of the loop being evaluated: a filter / map view of self.entries
 
     # ---- classification of root-level values ---------------------------------------------------------
     def entry_proj(self, v):
         coll, proj = L.loop_element(v)
         if coll is not None and L.self_field(self.root, coll) == 'entries':
             return proj
+        if coll is not None and self.view is not None and self.view.mapped and canon(coll) == self.view.coll_key:
+            # the element of a view of the entries (`entries.iter().filter(..).map(|((_, n), v)| (n, v))`)
+            if proj == ():
+                return ()
+            v = self.view.project(proj)
         s = v
         projs = []
         while s[0] in ('field', 'updated', 'unwrap'):
@@ -806,7 +1030,11 @@ class ArmCase:
         return None
 
     def is_behaviour(self, v):
-        return self.entry_proj(v) == ('0', '0')
+        if self.entry_proj(v) == ('0', '0'):
+            return True
+        # a value the view of the entries being iterated only lets through entries of equal behaviour for
+        # (`.filter(|((b, _), _)| b == wanted)`: inside the loop `wanted` is the entry's behaviour)
+        return self.view is not None and bool(self.view.alias_keys) and canon(strip(v)) in self.view.alias_keys
 
     def is_env(self, v):
         v = strip(v)
@@ -1129,6 +1357,46 @@ class ArmCase:
             return False
         return None
 
+    # ---- slots: `&mut` the value stored for a variable ---------------------------------------------------
+    def is_env_map(self, v):
+        v = strip(v)
+        return v[0] == 'field' and v[2] == 'inner' and self.is_env(v[1])
+
+    def prev_atoms(self):
+        return ('PREV',) if self.P == 'nonempty' else ()
+
+    def slot(self, spec, v, d=0):
+        """v is `&mut` the string the environment built so far holds for a variable, made to exist first —
+            env.inner.entry(key).or_default() / .or_insert(x) / .or_insert_with(f), possibly behind private helpers:
+        (key atoms, atoms of the string right after the call in this case, site of the entry() call) else None"""
+        while v[0] == 'updated':
+            v = v[1]
+        if v[0] != 'call' or d > 4:
+            return None
+        n, args = v[1], v[2]
+        tail = n.split('::')[-1]
+        if n.startswith(HM_ENTRY + 'Entry') and tail in ('or_default', 'or_insert', 'or_insert_with') and args:
+            e = strip(args[0])
+            if not (e[0] == 'call' and e[1].startswith(HM) and e[1].endswith('::entry') and len(e[2]) == 2 and self.is_env_map(e[2][0])):
+                return None
+            key = self.atoms(spec, e[2][1], None, d + 1)
+            if self.P != 'unset':
+                init = self.prev_atoms()
+            elif tail == 'or_default' and len(args) == 1:
+                init = ()
+            elif tail == 'or_insert' and len(args) == 2:
+                init = self.atoms(spec, args[1], None, d + 1)
+            elif tail == 'or_insert_with' and len(args) == 2:
+                r = self.apply(spec, args[1], ())
+                init = self.atoms(spec, r, None, d + 1) if r is not None else unknown(args[1])
+            else:
+                return None
+            return key, init, (e[3] if len(e) > 3 else None)
+        iv = self.inline(spec, v)
+        if iv is not None:
+            return self.slot(spec, iv, d + 1)
+        return None
+
     # ---- string atoms ------------------------------------------------------------------------------------
     def atoms(self, spec, v, at=None, d=0):
         """the pieces a string value consists of in this case: a tuple over NAME / VALUE / PREV / DELIM (PREV only
@@ -1167,13 +1435,17 @@ class ArmCase:
         if k == 'concat':
             out = self.atoms(spec, v[1], at, d + 1)
             for p in v[2]:
-                if p[0] == 'call' and p[1] in (PUSH, MAYBE) and len(p) > 3 and p[3]:
+                if p[0] == 'call' and p[1] in (PUSH, MAYBE, TAKE) and len(p) > 3 and p[3]:
                     site = p[3]
                     if at is not None and site[0] == at[0].path:
                         inc = self.push_rel(spec, at, site)
                     else:
-                        inc = True if p[1] == PUSH else None
+                        inc = True if p[1] in (PUSH, TAKE) else None
                     if inc is False:
+                        continue
+                    if len(site) > 3 and site[3] == 'take':
+                        # std::mem::take(&mut s): nothing of what was there before stays
+                        out = () if inc else out + ('?taken-on-some-paths-only',)
                         continue
                     if len(site) > 3 and site[3] != 'push':
                         out = out + ('?' + vstr(p[2][0])[:60],)
@@ -1198,6 +1470,21 @@ class ArmCase:
             return out
         if n.endswith(KEEP) and len(args) == 1:
             return self.atoms(spec, args[0], at, d + 1)
+        if n == MEM_TAKE and len(args) == 1:
+            # what the string held when it was taken: the pushes that precede the call
+            site = v[3] if len(v) > 3 else None
+            tf = spec.prog.fns.get(site[0]) if site else None
+            if tf is None:
+                return unknown(v)
+            x = args[0]
+            if x[0] == 'slotref':
+                if x[1] != tf.path:
+                    return unknown(v)
+                x = spec.to_root(spec.asl.local(tf, x[2]))
+            return self.atoms(spec, x, (tf, site[1]), d + 1)
+        if n.startswith(HM_ENTRY):
+            s = self.slot(spec, v)
+            return s[1] if s is not None else unknown(v)
         if n.startswith('std::option::Option::') and args and tail in ('unwrap_or_default', 'unwrap_or', 'unwrap_or_else', 'map_or', 'map_or_else'):
             o = self.opt(spec, args[0], at, d + 1)
             if o is None:
@@ -1215,13 +1502,76 @@ class ArmCase:
                 r = self.apply(spec, args[1], ())
                 return self.atoms(spec, r, None, d + 1) if r is not None else unknown(v)
             return unknown(v)
+        s = self.slot(spec, v) if (v[1] in spec.prog.fns and spec.engine.has_env_write(spec.prog.fns[v[1]])) else None
+        if s is not None:
+            return s[1]
         iv = self.inline(spec, v)
         if iv is not None:
             return self.atoms(spec, iv, None, d + 1)
         return unknown(v)
 
 
-def _insert_event(case):
+def _slot_uses_ok(fn, local, def_bb):
+    """the `&mut String` local is only ever reborrowed (`&mut *slot`, `&*slot`): what happens to the string is then
+    what happens through those reborrows, which the slicer follows"""
+    def mentions(x, inside_ref=False):
+        if isinstance(x, dict):
+            for k, v in x.items():
+                if k in ('p', 'c', 'm') and isinstance(v, list) and v and v[0] == local:
+                    if not (k == 'p' and x.get('r') == 'ref' and v == [local, '*']):
+                        return True
+                elif mentions(v):
+                    return True
+        elif isinstance(x, list):
+            return any(mentions(y) for y in x)
+        return False
+    for bi, b in enumerate(fn.blocks):
+        for st in b['s']:
+            if st[0] == '=' and (st[1] and st[1][0] == local):
+                return False
+            if mentions(st[2:] if st[0] == '=' else st[1:]):
+                return False
+        tm = dict(b['t'])
+        if tm.get('t') == 'call' and bi == def_bb and tm.get('dest') == [local]:
+            tm.pop('dest')
+        elif tm.get('dest') and tm['dest'][0] == local:
+            return False
+        if mentions(tm):
+            return False
+    return True
+
+
+def _insert_event(case, ends_of=None):
+    def ends(fn):
+        e = ends_of(fn) if ends_of else None
+        return list(e) if e else list(fn.return_blocks())
+
+    def slot_event(spec, fn, c, s):
+        """the call hands out `&mut` the string stored for a variable (creating it when the variable is unset): what
+        the string holds when the application of the entry is over is what an insert would have stored"""
+        key, init, esite = s
+        prog = spec.prog
+        if esite is None or not c.dest or len(c.dest) != 1:
+            return (('?env-write', c.name),)
+        hs = [h for h in prog.callee_fns(c) if h.kind != 'Closure']
+        inside = env_write_sites(prog, hs) if hs else {(fn.path, esite[1])}
+        if inside != {(esite[0], esite[1])}:
+            return (('?env-write', 'more than the entry() call inside ' + (c.name or '?')),)
+        spec.seen_sites.add((esite[0], esite[1]))
+        local = c.dest[0]
+        if not _slot_uses_ok(fn, local, c.bb):
+            return (('?env-write', 'the reference handed out by %s is passed on' % (c.name or '?').split('::')[-1]),)
+        full = spec.to_root(spec.asl.local(fn, local))
+        finals = {case.atoms(spec, full, (fn, e, 'use')) for e in ends(fn)}
+        if len(finals) != 1:
+            return (('?env-write', 'the stored string differs between paths'),)
+        final = finals.pop()
+        if key != ('NAME',):
+            return (('insert', key, final),)       # some other variable: reported by the shape check
+        if case.P != 'unset' and final == case.prev_atoms():
+            return ()       # the variable keeps the value it had
+        return (('insert', key, final),)
+
     def event_of(spec, fn, c):
         if c.indirect:
             return ()
@@ -1235,29 +1585,250 @@ def _insert_event(case):
                 return (('insert-into', vstr(recv)[:40], key, val),)
             return (('insert', key, val),)
         hs = [h for h in spec.prog.callee_fns(c) if h.kind != 'Closure']
-        if any(spec.engine.has_call(h, ENV_INSERT) for h in hs):
+        writes = is_env_map_write(fn, c) or (c.name or '').startswith(HM_ENTRY) or any(spec.engine.has_env_write(h) for h in hs)
+        if writes and (c.dty or '').startswith('&mut ') and c.dest and len(c.dest) == 1:
+            v = spec.to_root(spec.asl.local(fn, c.dest[0]))
+            s = case.slot(spec, v[1] if v[0] == 'concat' else v)
+            if s is not None:
+                return slot_event(spec, fn, c, s)
+        if is_env_map_write(fn, c):
+            if (c.name or '').startswith(HM) and c.name.endswith('::entry') and len(c.args) == 2:
+                return ()       # no effect by itself: what is done with the entry is (Entry::or_default, ..)
+            if (c.name or '').startswith(HM) and c.name.endswith('::insert') and len(c.args) == 3 and \
+                    case.is_env_map(spec.to_root(spec.asl.operand(fn, c.args[0]))):
+                spec.seen_sites.add((fn.path, c.bb))
+                at = (fn, c.bb, 'use')
+                return (('insert', case.atoms(spec, spec.to_root(spec.asl.operand(fn, c.args[1])), at),
+                         case.atoms(spec, spec.to_root(spec.asl.operand(fn, c.args[2])), at)),)
+            return (('?env-write', c.name),)
+        if (c.name or '').startswith(HM_ENTRY) and c.args:
+            # a method of an Entry / OccupiedEntry / VacantEntry of the map inside an Env that is not understood
+            a0 = strip(spec.to_root(spec.asl.operand(fn, c.args[0])))
+            if any(x[0] == 'field' and x[2] == 'inner' and case.is_env(x[1]) for x in walk(a0)):
+                return (('?env-write', c.name),)
+        if any(spec.engine.has_env_write(h) for h in hs):
             return None     # descend
-        cls = [g for g in spec.prog.fn_item_args(c) if spec.engine.has_call(g, ENV_INSERT)]
+        cls = [g for g in spec.prog.fn_item_args(c) if spec.engine.has_env_write(g)]
         if cls:
             return (('?insert-inside-a-closure', cls[0].path.split('::')[-1]),)
         return ()
     return event_of
 
 
+ORDER_KEEPING = (iters.IT + 'peekable', iters.IT + 'by_ref', iters.IT + 'fuse', iters.IT + 'cloned', iters.IT + 'copied')
+
+
+class EntryView:
+    """how the collection a loop iterates relates to self.entries: the entries themselves, or a lazily filtered /
+    mapped view of them in map order —
+
+        self.entries.iter().filter(|((b, _), _)| b == wanted).map(|((_, name), value)| (name, value))
+
+    elem     the loop element in terms of ('sym', 'ENTRY') (one (behaviour, name) -> value pair of the map)
+    aliases  values that, inside the loop, equal the behaviour of the entry (the filters let nothing else through)
+    table    None, or the literal behaviour table [variant names] an enclosing loop takes `wanted` from: the loop body
+             then runs once per entry whose behaviour is in the table, in table order first and map order second
+    why      set when the collection is a view of the entries this analysis cannot vouch for"""
+
+    def __init__(self, engine, lp):
+        self.engine, self.lp = engine, lp
+        self.elem, self.aliases, self.table, self.why = None, [], None, None
+        self.ok = False
+        self.mapped = False
+        self.coll_key = None
+        self.alias_keys = set()
+        g, psl = engine.root, engine.psl
+        coll, proj = L.loop_element(('unwrap', ('call', 'std::iter::Iterator::next', (lp.collection,), None)))
+        if coll is None:
+            return
+        self.coll_key = canon(coll)
+        if L.self_field(g, coll) == 'entries':
+            self.elem, self.ok = ('sym', 'ENTRY'), True
+            return
+        cur = strip(psl.inline_deep(coll))
+        stages = []
+        for _ in range(12):
+            if L.self_field(g, cur) == 'entries':
+                break
+            if cur[0] != 'call' or not cur[2]:
+                return
+            n, args = cur[1], cur[2]
+            if (n in ORDER_KEEPING or n in iters.COLLECTING or (iters._is_source(n) and n.endswith(iters.SAME_ELEMS))) and len(args) == 1:
+                cur = strip(args[0])
+            elif n in (iters.IT + 'filter', iters.IT + 'map') and len(args) == 2:
+                stages.append((n, strip(args[1])))
+                cur = strip(args[0])
+            else:
+                return
+        else:
+            return
+        # from here on the loop does range over (some of) the entries: anything not understood is reported
+        elem = ('sym', 'ENTRY')
+        for n, cl in reversed(stages):
+            r = psl.apply_closure(cl, (elem,)) if cl[0] == 'closure' else None
+            if r is None:
+                self.why = 'closure of %s over the entries not evaluated' % n.split('::')[-1]
+                return
+            while r[0] == 'updated':
+                r = r[1]
+            if n.endswith('::map'):
+                elem = r
+                continue
+            x = self._equalled(r, elem)
+            if x is None:
+                self.why = 'entries are filtered by something else than `behaviour == <value>`: ' + vstr(r)[:100]
+                return
+            self.aliases.append(x)
+        self.elem, self.mapped = elem, True
+        self.alias_keys = {canon(strip(x)) for x in self.aliases}
+        if self.aliases and not self._table():
+            return
+        self.ok = True
+
+    @staticmethod
+    def proj_of(elem, proj):
+        for p in proj:
+            while elem[0] in ('updated',):
+                elem = elem[1]
+            if elem[0] == 'tuple' and p.isdigit() and int(p) < len(elem[1]):
+                elem = elem[1][int(p)]
+            else:
+                elem = ('field', elem, p)
+        return elem
+
+    def project(self, proj):
+        return self.proj_of(self.elem, proj)
+
+    @staticmethod
+    def _entry_path(v):
+        projs = []
+        while v[0] in ('field', 'updated', 'unwrap'):
+            if v[0] == 'field':
+                projs.append(v[2])
+            v = v[1]
+        return tuple(reversed(projs)) if v == ('sym', 'ENTRY') else None
+
+    def _equalled(self, pred, elem):
+        """pred is `behaviour of the element == X` with X independent of the element: X"""
+        if not (pred[0] == 'call' and pred[1].endswith('::eq') and len(pred[2]) == 2):
+            return None
+        a, b = pred[2]
+        for x, y in ((a, b), (b, a)):
+            if self._entry_path(x) == ('0', '0') and not any(z == ('sym', 'ENTRY') for z in walk(y)):
+                return y
+        return None
+
+    def _table(self):
+        """every alias is the element of one enclosing loop over a literal table of distinct behaviours, sorted the
+        way the map sorts them (Ord for ModificationBehavior): visiting, per table row, the entries of that behaviour
+        in map order is then the map order restricted to the behaviours of the table"""
+        from .lib.effects import find_loops
+        g, psl, prog = self.engine.root, self.engine.psl, self.engine.prog
+        if len(self.alias_keys) != 1:
+            self.why = 'entries filtered by several behaviour values'
+            return False
+        x = strip(self.aliases[0])
+        coll, proj = L.loop_element(x)
+        if coll is None or proj != () or coll[0] != 'array':
+            self.why = 'the behaviour the entries are filtered by is not the element of a loop over a literal table: ' + vstr(x)[:80]
+            return False
+        names = []
+        for el in coll[1]:
+            el = strip(el)
+            if not (el[0] == 'agg' and el[1] == MB and el[2] and not el[3]):
+                self.why = 'behaviour table with a non-literal row: ' + vstr(el)[:60]
+                return False
+            names.append(el[2])
+        site = x[3] if x[0] == 'call' and len(x) > 3 else None
+        outer = [lp for lp in find_loops(g, psl) if site and site[0] == g.path and lp.header == site[1]]
+        if len(outer) != 1 or outer[0].header == self.lp.header or self.lp.header not in outer[0].body or \
+                not g.dominates(outer[0].header, self.lp.header):
+            self.why = 'the loop over the behaviour table does not enclose the loop over the entries'
+            return False
+        why = self._every_row_every_entry(g, outer[0], self.lp)
+        if why:
+            self.why = why
+            return False
+        cmpf = prog.fns.get('<%s as std::cmp::Ord>::cmp' % MB)
+        ranks = rank_table(prog, psl, cmpf)[1] if cmpf is not None else {}
+        if len(set(names)) != len(names) or any(n not in ranks for n in names) or \
+                any(ranks[a] >= ranks[b] for a, b in zip(names, names[1:])):
+            self.why = 'behaviour table %s is not in the order the entries are sorted in (ranks %s)' % (names, ranks)
+            return False
+        self.table = names
+        return True
+
+
+    @staticmethod
+    def _every_row_every_entry(g, outer, inner):
+        """the table loop is only left when the table is exhausted, every one of its iterations runs the loop over the
+        entries, and that one is only left when the entries are exhausted (no break / return / continue around it):
+        None, or what is wrong"""
+        dead = lambda b: g.blocks[b]['t']['t'] in ('unreachable', 'resume', 'abort')
+        def next_switch(lp):
+            tb = lp.next_call.target
+            return tb if tb is not None and g.blocks[tb]['t']['t'] == 'switch' else None
+        osw, isw = next_switch(outer), next_switch(inner)
+        if osw is None or isw is None:
+            return 'loop exits not understood'
+        for b in outer.body:
+            for s in g.succs(b):
+                if s not in outer.body and not dead(s) and b != osw:
+                    return 'the loop over the behaviour table can be left before the table is exhausted (bb%d -> bb%d)' % (b, s)
+        # every iteration of the table loop reaches the loop over the entries
+        work = [s for s in g.succs(osw) if s in outer.body]
+        seen = set()
+        while work:
+            b = work.pop()
+            if b in seen or b == inner.header:
+                continue
+            seen.add(b)
+            if b == outer.header:
+                return 'an iteration of the loop over the behaviour table can skip the loop over the entries'
+            work.extend(s for s in g.succs(b) if s in outer.body)
+        # the blocks of the inner loop proper: on a cycle through its header that avoids the outer header
+        fwd, work = set(), [inner.header]
+        while work:
+            b = work.pop()
+            if b in fwd or b == outer.header:
+                continue
+            fwd.add(b)
+            work.extend(g.succs(b))
+        preds = g.preds()
+        bwd, work = set(), [inner.header]
+        while work:
+            b = work.pop()
+            if b in bwd or b == outer.header:
+                continue
+            bwd.add(b)
+            work.extend(preds[b])
+        proper = fwd & bwd
+        for b in proper:
+            for s in g.succs(b):
+                if s not in proper and not dead(s) and b != isw:
+                    return 'the loop over the entries can be left before the entries are exhausted (bb%d -> bb%d)' % (b, s)
+        return None
+
+
 def entry_loops(engine):
-    """loops of the root over self.entries that contain (possibly through helpers) an insert into the environment"""
+    """loops of the root over self.entries — or over an order-preserving filter / map view of them (EntryView) — that
+    contain (possibly through helpers) an insert into the environment"""
     from .lib.effects import find_loops
     g = engine.root
     out = []
+    engine.views = {}
     for lp in find_loops(g, engine.psl):
         if lp.collection is None:
             continue
-        coll, proj = L.loop_element(('unwrap', ('call', 'std::iter::Iterator::next', (lp.collection,), None)))
-        if coll is None or L.self_field(g, coll) != 'entries':
+        view = EntryView(engine, lp)
+        if not view.ok:
+            if view.why:
+                engine.view_why = view.why
             continue
+        engine.views[lp.header] = view
         body_calls = [c for c in g.calls if c.bb in lp.body and c.bb != lp.header]
-        if any(c.name == ENV_INSERT or any(engine.has_call(h, ENV_INSERT) for h in engine.prog.callee_fns(c)) or
-               any(engine.has_call(h, ENV_INSERT) for h in engine.prog.fn_item_args(c)) for c in body_calls):
+        if any(c.name == ENV_INSERT or any(engine.has_env_write(h) for h in engine.prog.callee_fns(c)) or
+               any(engine.has_env_write(h) for h in engine.prog.fn_item_args(c)) for c in body_calls):
             out.append(lp)
     return out
 
@@ -1279,7 +1850,7 @@ def entry_closures(engine):
             continue
         clv = strip(psl.operand(g, c.args[-1]))
         cl = prog.fns.get(clv[1]) if clv[0] == 'closure' else None
-        if cl is None or not engine.has_call(cl, ENV_INSERT):
+        if cl is None or not engine.has_env_write(cl):
             continue
         if c.decl.endswith('for_each'):
             out.append((cl, {(cl.path, 1): elem}, True))
@@ -1300,15 +1871,21 @@ def arm_cases(prog):
     """{(B, P, D): set of event tuples} of the application of one entry by LayerEnvDelta::apply (one iteration of its
     loop over self.entries, or one run of the closure handed to for_each / fold over them), the insert call sites
     seen, and diagnostics"""
-    g = prog.fn(L.DAPPLY)
+    g = delta_family(prog)[0] or prog.fn(L.DAPPLY)      # the member of the family that does the work
     eng = Engine(prog, g)
     loops = entry_loops(eng)
     closures = entry_closures(eng) if not loops else []
     info = {'engine': eng, 'loops': loops + closures, 'fn': g}
     if len(loops) + len(closures) != 1:
+        if not loops and not closures and getattr(eng, 'view_why', None):
+            info['why'] = 'the loop over the entries was not understood: ' + eng.view_why
         return g, None, set(), info
+    view = None
+    ends_of = None
     if loops:
         lp = loops[0]
+        view = eng.views.get(lp.header)
+        ends_of = lambda fn, _g=g, _h=lp.header: [_h] if fn.path == _g.path else None
         walk_fn, starts, ends, marker = g, [lp.header], [lp.header] + list(lp.exit_bb), ('?early-return',)
     else:
         cl, pre, ok = closures[0]
@@ -1322,17 +1899,20 @@ def arm_cases(prog):
     for b in BEHAVIOURS:
         for p in PREV_STATES:
             for d in DELIM_STATES:
-                case = ArmCase(g, b, p, d)
+                if view is not None and view.table is not None and b not in view.table:
+                    res[(b, p, d)] = {()}       # entries of this behaviour are never visited: nothing is inserted
+                    continue
+                case = ArmCase(g, b, p, d, view)
                 spec = Spec(eng, case)
-                res[(b, p, d)] = spec.events(walk_fn, starts, ends, _insert_event(case), ret_marker=marker)
+                res[(b, p, d)] = spec.events(walk_fn, starts, ends, _insert_event(case, ends_of), ret_marker=marker)
                 seen |= spec.seen_sites
     return g, res, seen, info
 
 
 def all_insert_sites(prog, engine):
     out = set()
-    for f in prog.reach([engine.root]).values():
-        for c in f.calls:
-            if c.name == ENV_INSERT and f.crate == engine.root.crate:
-                out.add((f.path, c.bb))
+    roots = [engine.root] + [prog.fns[p] for p in sorted(delta_family(prog)[1]) if p in prog.fns and p != engine.root.path]
+    for fp, bb in env_write_sites(prog, roots):
+        if prog.fns[fp].crate == engine.root.crate:
+            out.add((fp, bb))
     return out
